@@ -46,7 +46,7 @@ CONFIG = {
                   "(every_path_wrapped), each intruder class of the property is refused (plaintext_/no_cert_/self_signed_/same_names_other_key_/stapled_/ca_issued_refused), and the "
                   "legitimate pair does connect (legit_pair_connects); 22 witness theorems show each extracted fact is necessary. The facts (both tls.Config literals incl. later field "
                   "assignments and pool data flow; nine wrap/creds call sites) are re-extracted from the source on every run and re-proved good (Instance/C12.lean). Live: ~80 cells per run "
-                  "(320+ thorough) of real intruder connections against real AutoMTLS process pairs and scripted impostor plugins, compared cell by cell with the model.",
+                  "(320+ thorough) of real intruder connections against real AutoMTLS process pairs and scripted impostor plugins, compared cell by cell with the model. Eighth round: no TLS session resumption, so the pinned certificate is consulted on every connection (Hygiene.noSessionResumption; pin_consulted_on_every_connection, resumed_session_witness); the command runner leaves the assembled environment alone, so go-plugin's own PLUGIN_CLIENT_CERT, appended last, is the effective one (runnerLeavesEnv; own_value_effective, keep_first_witness).",
     "level_note": "Symbolic: crypto/tls and crypto/x509 conformance to the model's decision table is trusted (and exercised by the live intruders), keys are atoms. "
                   "The theorems assume the two honest parties sign nothing but their own certificate (IsCA is true in mtls.go). "
                   "A plugin announcing no certificate at all is outside the model (host falls back to system roots); covered only by live rows.",
